@@ -4,6 +4,10 @@ import json, os
 ROOT = os.path.dirname(os.path.dirname(os.path.abspath(__file__)))
 props = [json.loads(l) for l in open(os.path.join(ROOT, "properties.jsonl"))]
 CLAIMED = {
+ "C07": dict(
+   text="Coq theorems (oracle-relative, any field with conjugation, all sizes): a permutation of the features maps every admissible SVD answer (U,s,Vt) of X to the admissible answer (U,s,Vt Pi) of X Pi and leaves scores, norms and explained variances unchanged while permuting the component rows; a permutation of the samples maps it to (Sigma U,s,Vt) and permutes the scores identically, nothing else; the sign rule sees a row of Vt only through its maximum and minimum and is permutation invariant (real instance). Uniqueness of the SVD for simple spectra is not proved (partial). Oracle on the implementation: pairs of fits on transposed / feature-permuted / sample-permuted / split-into-list copies and with other sample_name/feature_name for every single-set class, their rotator and bootstrapper, and cross-set classes; complex modes compared up to a unit phase, SparsePCA/OPA up to sign.",
+   note="Trusted: Coq kernel; Coq.Reals axioms in C07_sign_rule_perm; spectral gap in generated data; N-d re-layout = column permutation is validated by the C02 stacking correspondence.",
+   technique="Coq proof (equivariance of the SVD specification under Permutation) + differential oracle on re-laid-out inputs", ref="4/C07"),
  "C05": dict(
    text="Coq theorems, all sizes: the composition scaler-with-fitted-statistics then projection on the components commutes with row concatenation and with row selection; the rotator's transform tail (divide, rotate, re-sort, re-scale, re-sign) commutes with row concatenation in both the sorted and unsorted state; dropping entirely missing samples commutes with concatenation. Source tie (regenerated on every run): every transform/predict implementation back-transforms scores through the unseen-data path, on which no transformer re-indexes to the fit samples and the MultiIndex is restored from the transform call. Oracle on the implementation: own sample labels, no spurious NaN, EVERY split point of the new data, subsets of the training samples, two sample dimensions and a sample MultiIndex, for single-set, rotated, cross-set and multi-set models.",
    note="Trusted: Coq kernel; translator T7unseen/T4; xarray concat/sel; SparsePCA, POP and cross-set transforms are covered by the API oracle, not by a theorem.",
